@@ -20,6 +20,7 @@ func genCfg(t *rapid.T) Config {
 	cfg.BlockReturn = rapid.Bool().Draw(t, "blockret")
 	cfg.AritySlack = rapid.Bool().Draw(t, "arityslack")
 	cfg.DupParams = rapid.Bool().Draw(t, "dupparams")
+	cfg.LibNames = rapid.Bool().Draw(t, "libnames")
 	cfg.Patterns = rapid.Bool().Draw(t, "patterns")
 	return cfg
 }
